@@ -2329,7 +2329,9 @@ vbi_decode_teletext(vbi_decoder *vbi, uint8_t *buffer)
 		cvtp->pgno = pgno;
 		vbi->vt.current = rvtp;
 
-		subpage = vbi_unham16p (p + 2) + vbi_unham16p (p + 4) * 256;
+		/* A negative (uncorrectable) half must keep the whole negative:
+		   OR, not plus - S3/S4 times 256 would lift it above zero. */
+		subpage = vbi_unham16p (p + 2) | (vbi_unham16p (p + 4) * 256);
 		flags = vbi_unham16p (p + 6);
 
 		if (page == 0xFF || (subpage | flags) < 0) {
